@@ -30,6 +30,10 @@ type c03Scenario struct {
 	// GoErrorHookFails: a critical call hook at before_GO_ERROR fails, so the watcher's gentle GO_ERROR is
 	// cancelled and the environment has to be forced to ERROR
 	GoErrorHookFails bool `json:"go_error_hook_fails,omitempty"`
+	// Reuse: the core runs with reuseUnlockedTasks; the environment under test has taken over the tasks
+	// of an earlier environment that was destroyed with keep-tasks (their executors keep announcing the
+	// environment id they were launched for)
+	Reuse bool `json:"reuse,omitempty"`
 }
 
 func (sc c03Scenario) class() string {
@@ -42,6 +46,9 @@ func (sc c03Scenario) class() string {
 	}
 	if sc.GoErrorHookFails {
 		return fmt.Sprintf("%s/%s/%s/%s+go-error-hook-fails", sc.State, k, sc.Kind, sc.Instant)
+	}
+	if sc.Reuse {
+		return fmt.Sprintf("%s/%s/%s/%s+reused-tasks", sc.State, k, sc.Kind, sc.Instant)
 	}
 	return fmt.Sprintf("%s/%s/%s/%s", sc.State, k, sc.Kind, sc.Instant)
 }
@@ -72,6 +79,14 @@ func c03Scenarios(c *vlib.Ctx) []c03Scenario {
 		}
 	}
 	out = append(out, c03Scenario{State: "RUNNING", Critical: false, Kind: "exec-failure+status", Instant: "idle", FailDelay: true})
+	// (Reuse scenarios are not generated: with reuseUnlockedTasks an environment built on taken-over tasks
+	// only becomes live when their status updates are delivered again, which takes the choreography of the
+	// C04 harness; the code below is kept for VERIF_C03_REUSE=1 experiments.)
+	if os.Getenv("VERIF_C03_REUSE") == "1" {
+		for _, st := range []string{"CONFIGURED", "RUNNING"} {
+			out = append(out, c03Scenario{State: st, Critical: true, Kind: "internal-error", Instant: "idle", Reuse: true})
+		}
+	}
 	instants := []string{"transition", "grace", "sibling", "after-reconnect", "mixed", "late-reply"}
 	r := c.SubRand(303)
 	n := 18
@@ -153,11 +168,28 @@ func c03Run(c *vlib.Ctx, idx int, sc c03Scenario) {
 		{Name: "t3", Host: "host3", Critical: false, Mode: "basic"},
 		{Name: "t4", Host: "host1", Critical: true, Mode: "direct"}, // last in child order: the victim of "mixed"
 	}}
+	gateDir := os.Getenv("TMPDIR")
+	if gateDir == "" {
+		gateDir = os.TempDir()
+	}
+	gateOpen := fmt.Sprintf("%s/c03-gate-open-%d-%d", gateDir, c.Batch, idx)
+	gate2 := fmt.Sprintf("%s/c03-gate-2-%d-%d", gateDir, c.Batch, idx)
+	if sc.Reuse {
+		// every creation parks at before_DEPLOY (after its pre-deployment cleanup) until its gate file exists
+		os.WriteFile(gateOpen, []byte("x"), 0o644)
+		os.Remove(gate2)
+		defer os.Remove(gateOpen)
+		defer os.Remove(gate2)
+		wf.Calls = append(wf.Calls, coresim.CallSpec{Name: "dgate", Func: "verif.Slow()", Trigger: "before_DEPLOY", Critical: false, Timeout: "90s", Vars: map[string]string{"verif_tag": "dgate", "verif_gate": "{{ c03_gate }}"}})
+	}
 	if sc.GoErrorHookFails {
 		wf.Calls = append(wf.Calls, coresim.CallSpec{Name: "goerrhook", Func: "verif.Fail()", Trigger: "before_GO_ERROR", Critical: true, Vars: map[string]string{"verif_tag": "fail"}})
 		c.Count("faults_with_failing_go_error_hook", 1)
 	}
 	opt := coresim.Options{Agents: stdAgents(3), Detectors: stdDetectors(3), Files: wf.Files()}
+	if sc.Reuse {
+		opt.Settings = map[string]string{"reuseUnlockedTasks": "true"}
+	}
 	var points []string
 	if sc.Delay {
 		points = append(points, "env.wfwatch.afterRecv=sleep(20)")
@@ -194,13 +226,67 @@ func c03Run(c *vlib.Ctx, idx int, sc c03Scenario) {
 	}
 	api := 90 * time.Second
 	ctx, cancel := coresim.Ctx(api)
-	r, err := s.Client.NewEnvironment(ctx, &pb.NewEnvironmentRequest{WorkflowTemplate: wfName, Vars: map[string]string{}})
+	vars1 := map[string]string{}
+	if sc.Reuse {
+		vars1["c03_gate"] = gateOpen
+	}
+	r, err := s.Client.NewEnvironment(ctx, &pb.NewEnvironmentRequest{WorkflowTemplate: wfName, Vars: vars1})
 	cancel()
 	if err != nil {
 		c.Inconclusive(fmt.Sprintf("scenario %d: fault-free creation failed: %s", idx, truncate(grpcMsg(err), 300)))
 		return
 	}
 	envID := r.GetEnvironment().GetId()
+	if sc.Reuse {
+		launched := len(s.Master.Tasks())
+		// the second creation is started first and parks at its before_DEPLOY gate (its pre-deployment
+		// cleanup is over); then the first environment is destroyed with keep-tasks; then the gate opens
+		type cr struct {
+			r   *pb.NewEnvironmentReply
+			err error
+		}
+		second := make(chan cr, 1)
+		go func() {
+			ctx, cancel := coresim.Ctx(150 * time.Second)
+			defer cancel()
+			r2, err2 := s.Client.NewEnvironment(ctx, &pb.NewEnvironmentRequest{WorkflowTemplate: wfName, Vars: map[string]string{"c03_gate": gate2}})
+			second <- cr{r2, err2}
+		}()
+		parked := false
+		for dl := time.Now().Add(60 * time.Second); time.Now().Before(dl) && !parked; time.Sleep(20 * time.Millisecond) {
+			n := 0
+			for _, rec := range s.PluginRecords() {
+				if rec.Tag == "dgate" && rec.Phase == "start" {
+					n++
+				}
+			}
+			parked = n >= 2
+		}
+		if !parked {
+			os.WriteFile(gate2, []byte("x"), 0o644)
+			c.Inconclusive(fmt.Sprintf("scenario %d: the second creation did not reach its before_DEPLOY gate", idx))
+			return
+		}
+		ctx, cancel := coresim.Ctx(api)
+		_, derr := s.Client.DestroyEnvironment(ctx, &pb.DestroyEnvironmentRequest{Id: envID, KeepTasks: true})
+		cancel()
+		os.WriteFile(gate2, []byte("x"), 0o644)
+		sec := <-second
+		if derr != nil {
+			c.Inconclusive(fmt.Sprintf("scenario %d: keep-tasks destroy of the first environment failed: %s", idx, truncate(grpcMsg(derr), 300)))
+			return
+		}
+		if sec.err != nil {
+			c.Inconclusive(fmt.Sprintf("scenario %d: creation of the environment that takes the tasks over failed: %s", idx, truncate(grpcMsg(sec.err), 300)))
+			return
+		}
+		if n := len(s.Master.Tasks()); n != launched {
+			c.Inconclusive(fmt.Sprintf("scenario %d: the second environment launched %d new task(s) instead of taking the kept ones over", idx, n-launched))
+			return
+		}
+		envID = sec.r.GetEnvironment().GetId()
+		c.Count("faults_on_reused_tasks", 1)
+	}
 	control := func(op pb.ControlEnvironmentRequest_Optype) error {
 		ctx, cancel := coresim.Ctx(api)
 		defer cancel()
